@@ -33,6 +33,8 @@
 #include <sys/stat.h>
 #include <sys/statfs.h>
 #include <sys/uio.h>
+#include <sys/ioctl.h>
+#include <linux/fs.h>
 #include <sys/syscall.h>
 #include "uv.h"
 #include "uv-common.h"
@@ -113,6 +115,8 @@ static void wfile(const char* p, const char* s, int rep, mode_t m) {
   for (i = 0; i < rep; i++) if (write(fd, s, strlen(s)) < 0) exit(2);
   fchmod(fd, m); close(fd);
 }
+static char xdev_dir[PATH_MAX]; static int xdev_ok;
+static void rm_tree_fn(const char* root);
 static void make_tree(const char* root) {
   char p[PATH_MAX];
   mkdir(root, 0755);
@@ -124,6 +128,11 @@ static void make_tree(const char* root) {
   mkdir("d1", 0755); wfile("d1/x", "xx", 1, 0644); wfile("d1/y", "yyy", 1, 0644); mkdir("d1/sub", 0700);
   mkdir("d2", 0755);
   if (symlink("a.txt", "ln") || symlink("nope", "dang") || symlink("d1", "lnd")) exit(2);
+  /* a second file system: xdev -> a fresh directory on /dev/shm (tmpfs) */
+  rm_tree_fn(xdev_dir);
+  if (xdev_ok && mkdir(xdev_dir, 0755) == 0) { if (symlink(xdev_dir, "xdev")) exit(2); }
+  else mkdir("xdev", 0755);
+  wfile("xdev/t.txt", "tmpfs side\n", 7, 0644);
   /* awkward entry names: dots only, leading/trailing dots, blanks, newline, UTF-8, 0xFF,
    * 255 bytes, case twins, leading dash - as files, directories and symlinks */
   mkdir("odd", 0755);
@@ -137,6 +146,7 @@ static void make_tree(const char* root) {
 }
 static int rm_cb(const char* p, const struct stat* s, int f, struct FTW* w) { (void) s; (void) f; (void) w; return remove(p); }
 static void rm_tree(const char* root) { nftw(root, rm_cb, 16, FTW_DEPTH | FTW_PHYS); }
+static void rm_tree_fn(const char* root) { if (root[0]) rm_tree(root); }
 
 static int cmpstr(const void* a, const void* b) { return strcmp(*(char* const*) a, *(char* const*) b); }
 
@@ -163,7 +173,8 @@ static void digest_dir(const char* dir) {
      * the utime operations report them themselves */
     k += snprintf(line + k, sizeof line - k, "u%d.%d|", (int) st.st_uid, (int) st.st_gid);
     dig_h = fnv((unsigned char*) line, (size_t) k, dig_h); dig_n++;
-    if (S_ISLNK(st.st_mode)) {
+    if (S_ISLNK(st.st_mode) && !strcmp(p, "./xdev")) digest_dir(p);   /* the other file system */
+    else if (S_ISLNK(st.st_mode)) {
       char b[PATH_MAX]; ssize_t r = readlink(p, b, sizeof b); if (r > 0) dig_h = fnv((unsigned char*) b, (size_t) r, dig_h);
     } else if (S_ISREG(st.st_mode)) {
       int fd = open(p, O_RDONLY); unsigned char b[8192]; ssize_t r;
@@ -341,6 +352,10 @@ static long posix_copyfile(const char* src, const char* dst, int flags) {
   if (futimens(d, tm)) { res = -(long) errno; goto done; }
   if (fchown(d, ss.st_uid, ss.st_gid)) {}
   if (fchmod(d, ss.st_mode)) { res = -(long) errno; goto done; }
+  if (flags & (UV_FS_COPYFILE_FICLONE | UV_FS_COPYFILE_FICLONE_FORCE)) {
+    if (ioctl(d, FICLONE, s) == 0) goto done;
+    if (flags & UV_FS_COPYFILE_FICLONE_FORCE) { res = -(long) errno; goto done; }
+  }
   for (left = ss.st_size; left > 0; ) {
     ssize_t r = pread(s, buf, left < (off_t) sizeof buf ? (size_t) left : sizeof buf, off), w;
     if (r < 0) { res = -(long) errno; break; }
@@ -834,6 +849,7 @@ static void run_route(int r, char* script, const char* base, long caseno) {
   CB = (r == R_POOL || r == R_RING) ? on_fs : NULL;
   snprintf(root, sizeof root, "%s/t%d_%ld_%c", base, (int) getpid(), caseno, RN[r]);
   rm_tree(root);
+  snprintf(xdev_dir, sizeof xdev_dir, "/dev/shm/c11_%d_%ld_%c", (int) getpid(), caseno, RN[r]);
   make_tree(root);
   if (!getcwd(cwd_root, sizeof cwd_root)) exit(2);
   for (i = 0; i < NSLOT; i++) slots[i] = -1;
@@ -853,6 +869,7 @@ static void run_route(int r, char* script, const char* base, long caseno) {
   free(rtext[r][MAXOPS - 1]); rtext[r][MAXOPS - 1] = strdup(tbuf);
   if (chdir("/") != 0) exit(2);
   rm_tree(root);
+  rm_tree_fn(xdev_dir);
   free(s);
 }
 
@@ -891,7 +908,8 @@ int main(int argc, char** argv) {
   uv_fs_stat(&pool_loop, &req, "/", on_fs); uv_run(&pool_loop, UV_RUN_DEFAULT); uv_fs_req_cleanup(&req);
   uv_fs_stat(&ring_loop, &req, "/", on_fs); uv_run(&ring_loop, UV_RUN_DEFAULT); uv_fs_req_cleanup(&req);
   uv_fs_access(&ring_loop, &req, "/", 0, on_fs); uv_run(&ring_loop, UV_RUN_DEFAULT); uv_fs_req_cleanup(&req);
-  printf("env kv=%u ring=%d sqpoll_setups=%ld\n", uv__kernel_version(), ring_iou()->ringfd >= 0, n_setup_sqpoll);
+  { struct stat a, b; xdev_ok = stat("/dev/shm", &a) == 0 && stat(argv[1], &b) == 0 && a.st_dev != b.st_dev && access("/dev/shm", W_OK) == 0; }
+  printf("env kv=%u ring=%d sqpoll_setups=%ld xdev=%d\n", uv__kernel_version(), ring_iou()->ringfd >= 0, n_setup_sqpoll, xdev_ok);
   while ((k = getline(&line, &cap, stdin)) > 0) {
     if (line[k - 1] == '\n') line[k - 1] = 0;
     run_case(line, argv[1], caseno++);
